@@ -120,6 +120,18 @@ class Ctx:
                     out.append(b.idx)
         return out
 
+    def tail_result_calls(self):
+        """call blocks whose Result is the function's own result (`..; last_step(..).await` as tail
+        expression): the function succeeds there exactly when that call does"""
+        out = []
+        for bb, t in self.body.calls():
+            if t.dest is None or t.is_call_to("core::ops::try_trait::FromResidual::from_residual"):
+                continue
+            tr = self.tracker.track(t.dest.local)
+            if 0 in tr.payloads.get(0, ()) and not tr.pos_edges(0) and not tr.neg_edges(0):
+                out.append(bb)
+        return out
+
     def comparisons(self):
         """all ordering/equality tests: (bb, op, lhs operand, rhs operand, TrackResult of bool)"""
         out = []
